@@ -201,6 +201,13 @@ func TestC11(t *testing.T) {
 				}
 			}
 		}
+		// an entry nobody needs, registered through a pointer type: the map is the caller's all the same
+		if rapid.IntRange(0, 3).Draw(rt, "pointerTypedEntry") == 0 {
+			tm["unused.PointerEntry"] = reflect.TypeOf(&zoo.Inner{})
+		}
+		// the maps the instance works with at the moment (RegisterNameMap / RegisterTypeMap replace them)
+		instNM, instTM := nm, tm
+		replacedMaps := false
 		nmBefore := copyNames(nm)
 		tmBefore := map[string]reflect.Type{}
 		for k, v := range tm {
@@ -425,7 +432,11 @@ func TestC11(t *testing.T) {
 						for _, k := range sortedNames(pendingNames) {
 							v := pendingNames[k]
 							e.RegisterNameType(k, v)
-							nmBefore[k] = v
+							if replacedMaps {
+								instNM[k] = v // (the instance's map is a copy made by this test: keep the model of it in step)
+							} else {
+								nmBefore[k] = v
+							}
 							delete(pendingNames, k)
 							break
 						}
@@ -437,12 +448,40 @@ func TestC11(t *testing.T) {
 							} else {
 								d.RegisterType(k, v)
 							}
-							tmBefore[k] = v
+							if replacedMaps {
+								instTM[k] = v
+							} else {
+								tmBefore[k] = v
+							}
 							delete(pendingTypes, k)
 							break
 						}
 					}
 					note("register", -1)
+				case act == 7 && !noNames && (kind == "Encoder" || kind == "Decoder") && rapid.Bool().Draw(rt, "replaceMaps"):
+					// the instance is given other maps: the caller's earlier maps are no longer its business
+					if kind == "Encoder" {
+						nm2 := copyNames(instNM)
+						nm2["unused.Name"] = "unused.WireName"
+						for _, k := range sortedNames(nm2) {
+							if k != nm2[k] && !strings.HasPrefix(k, "[") && k != "unused.Name" {
+								delete(nm2, k) // one custom class name less: the class goes by its Go name from now on
+								break
+							}
+						}
+						e.RegisterNameMap(nm2)
+						instNM = nm2
+					} else {
+						tm2 := map[string]reflect.Type{}
+						for k, v := range instTM {
+							tm2[k] = v
+						}
+						tm2["unused.OtherEntry"] = reflect.TypeOf(&zoo.K00{})
+						d.RegisterTypeMap(tm2)
+						instTM = tm2
+					}
+					replacedMaps = true
+					note("replace-maps", -1)
 				default: // Reset
 					switch kind {
 					case "Encoder":
@@ -505,7 +544,7 @@ func TestC11(t *testing.T) {
 		}
 		var msgs []string
 		if kind != "Decoder" {
-			pnm := nm
+			pnm := instNM
 			switch kind {
 			case "Serializer":
 				used = probeEnc(func() ([]byte, error) { return ser.ToBytes(vals[pi]) })
@@ -529,7 +568,7 @@ func TestC11(t *testing.T) {
 		}
 		if kind != "Encoder" {
 			probeShared := rapid.Bool().Draw(rt, "probeViaSharedReader")
-			ptm := tm
+			ptm := instTM
 			switch {
 			case kind == "Package":
 				if rapid.IntRange(0, 3).Draw(rt, "probeWithoutTypeMap") == 0 {
